@@ -793,7 +793,9 @@ class BosonicBackend(BaseBosonic):
             return np.array([res[:, 0] + 1j * res[:, 1]]).T
 
         res = select
-        self.circuit.post_select_heterodyne(mode, select)
+        # the circuit works with the phase-space point (x, p) = sqrt(2 * hbar) * (Re(alpha), Im(alpha)),
+        # cf. the factor 0.5 applied to sampled outcomes above
+        self.circuit.post_select_heterodyne(mode, np.sqrt(2 * self.circuit.hbar) * select)
         return np.array([[res]])
 
     def is_vacuum(self, tol=1e-10, **kwargs):
